@@ -12,7 +12,7 @@ trap 'git -C /repo worktree remove --force "$WT" >/dev/null 2>&1; rm -rf "$WT" "
 git -C /repo worktree add -q --detach "$WT" HEAD || exit 2
 if ! git -C "$WT" apply "$P"; then echo "MUTANT-RESULT $(basename "$P") APPLY-FAILED"; exit 3; fi
 if [ "${NOBUILD:-0}" != 1 ]; then
-  if ! (cd "$WT" && go build ./... 2>&1 | tail -5; cd "$WT" && go build ./... >/dev/null 2>&1); then echo "MUTANT-RESULT $(basename "$P") BUILD-FAILED"; exit 3; fi
+  if ! (cd "$WT" && go build -trimpath ./... 2>&1 | tail -5; cd "$WT" && go build -trimpath ./... >/dev/null 2>&1); then echo "MUTANT-RESULT $(basename "$P") BUILD-FAILED"; exit 3; fi
 fi
 first=1; rc=0
 for prop in "$@"; do
